@@ -7,6 +7,7 @@ CONSTANTS
   Faithful = TRUE
   ShareIdentical = TRUE
   CachedDecide = TRUE
+  AtomicReload = FALSE
 INVARIANTS TypeOK WorkersShare DestsIsolated DefsIsolated RegistryGoals WorkerGoals PeerCountCurrent NeverTainted
 PROPERTIES CacheStable RegistryMonotone
 CHECK_DEADLOCK FALSE
